@@ -15,6 +15,9 @@
 (*   W  0     hook fs:write hit by the writer thread                        *)
 (*   E  p k   log() has returned to thread p                                *)
 (*   SdB/SdE  the application thread calls shutdown() / it has returned     *)
+(*   FlB/FlE  the application thread calls flush() / it has returned, with   *)
+(*            the record ids it then reads from the file (histories without  *)
+(*            rotation)                                                      *)
 (*   Final    the files, read after shutdown                               *)
 (*                                                                         *)
 (* Binding to the actions of FlwConc:                                       *)
@@ -111,6 +114,12 @@ Consume(e) ==
            [] e.ev = "W" /\ e.p = 0 -> \* the effect of the data message dequeued last: exactly one write per message
                             /\ Async /\ Len(file) = wr + 1 /\ wr' = wr + 1
                             /\ UNCHANGED <<vars, F, ns, fl, on>>
+           \* the application thread calls flush() while the threads log (sync: under the state mutex, somewhere between
+           \* FlB and FlE; the specification flushes at FlB, which demands less): when it has returned, everything that
+           \* was acknowledged when it was called must be in the file the application thread then reads
+           [] e.ev = "FlB" -> Flush /\ UNCHANGED <<F, ns, wr, fl, on>>
+           [] e.ev = "FlE" -> /\ Async \/ {Num(id) : id \in ackAtFlush} \subseteq {e.seen[j] : j \in 1..Len(e.seen)}
+                              /\ UNCHANGED <<vars, F, ns, wr, fl, on>>
            [] e.ev = "SdB" -> Shutdown /\ UNCHANGED <<F, ns, wr, fl, on>>
            [] e.ev = "SdE" -> /\ IF app = "shutting" THEN Join ELSE (app = "down" /\ UNCHANGED vars)
                               /\ UNCHANGED <<F, ns, wr, fl, on>>
